@@ -51,7 +51,8 @@ def body_parse_range(I, X, n=4):
                 wf = pand(plen(num) > 0, pall_in(num, DIG))
                 ok = pand(ok, wf, e is None)
                 if bool(wf):
-                    ok = pand(ok, peq(b, -pint(num)))
+                    # a suffix range is '-N' with N > 0 ('-0' cannot be told from '0-' afterwards)
+                    ok = pand(ok, peq(b, -pint(num)), b < 0)
             else:
                 a, sep, z = it.partition("-")
                 a, z = a.strip(), z.strip()
